@@ -28,6 +28,14 @@ pub enum WriteChunkError {
     },
 }
 
+/// Error for chunk content which does not fit its length field.
+fn chunk_too_large(length: usize, bits: u32) -> std::io::Error {
+    std::io::Error::new(
+        std::io::ErrorKind::InvalidInput,
+        format!("chunk of {length} bytes does not fit in a {bits}-bit length field"),
+    )
+}
+
 fn write_chunk_u32<F>(writer: &mut dyn Write, func: F) -> std::result::Result<(), WriteChunkError>
 where
     F: FnOnce(&mut Vec<u8>) -> Result<()>,
@@ -37,7 +45,11 @@ where
         .map_err(Box::from)
         .context(BuildChunkSnafu)?;
 
-    let length = data.len() as u32;
+    // the content must fit the 32-bit length field:
+    // a silently truncated length would yield a corrupt PDU
+    let length = u32::try_from(data.len())
+        .map_err(|_| chunk_too_large(data.len(), 32))
+        .context(WriteLengthSnafu)?;
     writer
         .write_u32::<BigEndian>(length)
         .context(WriteLengthSnafu)?;
@@ -56,7 +68,11 @@ where
         .map_err(Box::from)
         .context(BuildChunkSnafu)?;
 
-    let length = data.len() as u16;
+    // the content must fit the 16-bit length field:
+    // a silently truncated length would yield a corrupt PDU
+    let length = u16::try_from(data.len())
+        .map_err(|_| chunk_too_large(data.len(), 16))
+        .context(WriteLengthSnafu)?;
     writer
         .write_u16::<BigEndian>(length)
         .context(WriteLengthSnafu)?;
@@ -1177,6 +1193,40 @@ mod tests {
         assert_eq!(bytes, &[0, 4, 2, 0, 1, 3]);
 
         Ok(())
+    }
+
+    #[test]
+    fn oversized_chunk_is_an_error() {
+        // 65535 bytes still fit a 16-bit length field
+        let mut bytes = vec![0u8; 0];
+        write_chunk_u16(&mut bytes, |writer| {
+            writer.extend(std::iter::repeat_n(0x55, 65_535));
+            Ok(())
+        })
+        .unwrap();
+        assert_eq!(bytes.len(), 2 + 65_535);
+        assert_eq!(&bytes[..2], &[0xFF, 0xFF]);
+
+        // one more byte does not, and nothing is written
+        let mut bytes = vec![0u8; 0];
+        let res = write_chunk_u16(&mut bytes, |writer| {
+            writer.extend(std::iter::repeat_n(0x55, 65_536));
+            Ok(())
+        });
+        assert!(matches!(res, Err(WriteChunkError::WriteLength { .. })));
+        assert!(bytes.is_empty());
+
+        // the whole PDU fails to be written instead of being corrupt
+        let pdu = Pdu::AssociationRQ(AssociationRQ {
+            protocol_version: 1,
+            calling_ae_title: "SCU".to_string(),
+            called_ae_title: "SCP".to_string(),
+            application_context_name: "1.2.3".to_string(),
+            presentation_contexts: vec![],
+            user_variables: vec![UserVariableItem::Unknown(0x60, vec![0; 70_000])],
+        });
+        let mut out = Vec::<u8>::new();
+        assert!(write_pdu(&mut out, &pdu).is_err());
     }
 
     #[test]
